@@ -57,8 +57,8 @@ func build(tier string) []*vkit.Scenario {
 			if k == 5 {
 				a.k = 16 // the 101 response and the frames go out in several partial writes
 			}
-			if thorough {
-				a.p = 2
+			if thorough && k != 5 {
+				a.p = 2 // (K=16 at P=2 exceeds 2 M executions / 12 min per scenario: stays at P=1)
 			}
 			add(a.name(), orderBody(a), a.p, ntD)
 			if k == 5 {
@@ -74,8 +74,8 @@ func build(tier string) []*vkit.Scenario {
 			continue
 		}
 		a := acfg{mode: m, exec: "go", writers: 2, f: 2, k: 1 << 20, p: 1, end: "tclose"}
-		if thorough {
-			a.p = 2
+		if thorough && m == ekit.LT {
+			a.p = 2 // 1.6 M executions; ET / ONESHOT need 2.4-2.8 M+ and stay at P=1
 		}
 		add(a.name(), orderBody(a), a.p, func(m map[string]int) bool { return m["messages_on_wire"] > 0 })
 	}
